@@ -54,6 +54,7 @@ type FuncVer struct {
 	frameSeq   int
 	loopInfos  map[*ssa.Function]*loopAnalysis
 	loopEntry  *State
+	aspect     string // "" = default pass
 	returns    int
 	panics     int
 	prop       string
@@ -73,6 +74,9 @@ func (fv *FuncVer) shortName() string { return fv.eng.shortFuncName(fv.fn) }
 
 // oblige records goal as an obligation under the current path condition.
 func (fv *FuncVer) oblige(st *State, kind, anchor string, pos token.Pos, goal *Term, text string) {
+	if fv.aspect != "" && !strings.Contains(kind, "@"+fv.aspect+"]") && !strings.Contains(kind, "@"+fv.aspect+",") {
+		return // an aspect pass only proves its own clauses (those that name it first)
+	}
 	if goal.IsLit && goal.Bool {
 		// trivially true on this path; still register the obligation name so it is counted
 		fv.addQuery(st, kind, anchor, pos, nil, text)
